@@ -105,7 +105,7 @@ def _small_steps_c09(seed):
     return []
 
 
-def _mk_real_ghe(n1, n2, H, soil_k=2.0, pipe="single", months=12, amp=9000.0, h_bore=None, gf_rb=None):
+def _mk_real_ghe(n1, n2, H, soil_k=2.0, pipe="single", months=12, amp=9000.0, h_bore=None, gf_rb=None, loads_array=False):
     import_repo()
     from ghedesigner.borehole import GHEBorehole  # noqa: PLC0415
     from ghedesigner.coordinates import rectangle  # noqa: PLC0415
@@ -134,7 +134,12 @@ def _mk_real_ghe(n1, n2, H, soil_k=2.0, pipe="single", months=12, amp=9000.0, h_
     gfn = calc_g_func_for_multiple_lengths(5.0, [bore.H], bore.r_b if gf_rb is None else gf_rb, bore.D, m_flow, bt, eskilson_log_times(), coords, fluid, pp, grout, soil)
     if h_bore is not None:
         bore.H = h_bore       # the stored g-function stays the one computed for H; the exchanger is built at another height
-    return GHE(0.3 * nb, 5.0, bt, fluid, bore, pp, grout, soil, gfn, sp, profile(amp * nb))
+    loads = profile(amp * nb)
+    if loads_array:
+        import numpy as np  # noqa: PLC0415
+
+        loads = np.array(loads, dtype=np.float64)      # the loads may be handed over as a float array as well as a list
+    return GHE(0.3 * nb, 5.0, bt, fluid, bore, pp, grout, soil, gfn, sp, loads)
 
 
 def _real_c09(case):
@@ -246,6 +251,19 @@ def _real_c09(case):
                     stats["steps"] += len(ref3)
                     if not e4 <= 1e-9:
                         bad.append(f"HYBRID with a g-function tabulated for r_b = {rb_tab} m on a {g3.bhe.b.r_b} m borehole deviates from the superposition of the radius-corrected curve by {e4:.3g} (relative)")
+            if hourly and months == 12:
+                # loads handed over as a float64 array; two HOURLY simulations in a row give the same temperatures and leave the loads alone
+                ga = _mk_real_ghe(n1, n2, H, soil_k, pipe, months, loads_array=True)
+                before = np.array(ga.hourly_extraction_ground_loads, dtype=float).copy()
+                ga.simulate(TimestepType.HOURLY)
+                first = np.array(ga.hp_eft)
+                ga.simulate(TimestepType.HOURLY)
+                second = np.array(ga.hp_eft)
+                stats["steps"] += 2 * len(first)
+                if len(first) != len(second) or np.max(np.abs(first - second)) > 1e-12:
+                    bad.append(f"two HOURLY simulations in a row on an object whose loads are a float array differ by up to {np.max(np.abs(first - second)):.3g} K")
+                if not np.array_equal(np.asarray(ga.hourly_extraction_ground_loads, dtype=float), before):
+                    bad.append("an HOURLY simulation changed the loads (float array) of the object")
             if hourly:
                 g.simulate(TimestepType.HOURLY)
                 hp = np.array(g.hp_eft)
@@ -503,13 +521,108 @@ def _real_c11(case):
     return {"bad": bad, "info": info}
 
 
+# ------------------------------------------------------------------------------------------------
+# C11: analytical anchor of the long-time curves (a measurement, no model: there is no discrete structure)
+# ------------------------------------------------------------------------------------------------
+def _fls_reference(coords, h, d, rb, alpha, times):
+    """Uniform-heat-rate g-function of equal vertical boreholes as the superposition of the finite-line-source solution with its
+    mirror image (Claesson & Javed form), integrated with scipy.quad: independent of pygfunction."""
+    import numpy as np  # noqa: PLC0415
+    from scipy.integrate import quad  # noqa: PLC0415
+    from scipy.special import erf  # noqa: PLC0415
+
+    def ierf(x):
+        return x * erf(x) - (1.0 - np.exp(-x * x)) / math.sqrt(math.pi)
+
+    def fls(dist, t):
+        def f(s_):
+            y = 2 * ierf(h * s_) + 2 * ierf((h + 2 * d) * s_) - ierf((2 * h + 2 * d) * s_) - ierf(2 * d * s_)
+            return np.exp(-dist * dist * s_ * s_) * y / (h * s_ * s_)
+        v, _ = quad(f, 1.0 / math.sqrt(4 * alpha * t), np.inf, epsabs=1e-12, epsrel=1e-10, limit=400)
+        return 0.5 * v
+
+    c = np.array(coords, dtype=float)
+    n = len(c)
+    dist = np.sqrt(((c[:, None, :] - c[None, :, :]) ** 2).sum(-1))
+    dist[np.diag_indices(n)] = rb
+    vals, cnt = np.unique(np.round(dist, 9), return_counts=True)
+    return np.array([sum(k * fls(x, t) for x, k in zip(vals, cnt)) / n for t in times])
+
+
+def _fls_case(case):
+    import_repo()
+    import numpy as np  # noqa: PLC0415
+
+    from ghedesigner.borehole import GHEBorehole  # noqa: PLC0415
+    from ghedesigner.enums import BHPipeType  # noqa: PLC0415
+    from ghedesigner.gfunction import calculate_g_function  # noqa: PLC0415
+    from ghedesigner.media import GHEFluid, Grout, Pipe, Soil  # noqa: PLC0415
+    from ghedesigner.utilities import eskilson_log_times  # noqa: PLC0415
+
+    name, coords, h, d, rb = case
+    soil, grout, fluid = Soil(k=2.0, rho_cp=2343493.0, ugt=18.3), Grout(k=1.0, rho_cp=3901000.0), GHEFluid("Water", 0.0)
+    pipe = Pipe(Pipe.place_pipes(0.0323, 0.0133, 1), 0.0108, 0.0133, 0.0323, 1.0e-6, 0.4, 1542000.0)
+    alpha = soil.k / soil.rhoCp
+    times = np.exp(np.array(eskilson_log_times())) * h * h / (9.0 * alpha)
+    out = {"name": name, "n": len(coords)}
+    with warnings.catch_warnings(), contextlib.redirect_stdout(io.StringIO()):
+        warnings.simplefilter("ignore")
+        try:
+            ref = _fls_reference(coords, h, d, rb, alpha, times)
+            bore = GHEBorehole(h, d, rb, 0.0, 0.0)
+            g = np.array(calculate_g_function(0.5, BHPipeType.SINGLEUTUBE, times, coords, bore, fluid, pipe, grout, soil, boundary="UHTR").gFunc)
+            out["uhtr_err"] = float(np.max(np.abs(g - ref)))
+            if out["uhtr_err"] > (1e-6 if len(coords) == 1 else 1e-4):
+                # is it the grouping tolerance of the default 'equivalent' solver (listed finding F27)? the exact-pairing solver decides
+                g2 = np.array(calculate_g_function(0.5, BHPipeType.SINGLEUTUBE, times, coords, bore, fluid, pipe, grout, soil, boundary="UHTR", solver="similarities").gFunc)
+                out["uhtr_err_similarities"] = float(np.max(np.abs(g2 - ref)))
+            if len(coords) == 1:
+                gm = np.array(calculate_g_function(0.5, BHPipeType.SINGLEUTUBE, times, coords, bore, fluid, pipe, grout, soil).gFunc)
+                out["mift_rel"] = float(np.max(np.abs(gm - ref) / np.abs(ref)))
+        except Exception as ex:  # noqa: BLE001
+            out["error"] = f"{type(ex).__name__}: {ex}"
+    return out
+
+
+def fls_anchor(chk: Check):
+    def rect(nx, ny, b):
+        return [(i * b, j * b) for i in range(nx) for j in range(ny)]
+
+    rnd = random.Random(3)
+    irregular = [(round(rnd.uniform(0, 60), 2), round(rnd.uniform(0, 60), 2)) for _ in range(25)]
+    cases = [("single borehole", [(0.0, 0.0)], 100.0, 2.0, 0.075), ("single borehole, shallow", [(0.0, 0.0)], 45.0, 1.0, 0.06), ("2x3 grid", rect(2, 3, 5.0), 100.0, 2.0, 0.075),
+             ("L shape", [(0, 0), (5, 0), (10, 0), (0, 5), (0, 10)], 150.0, 4.0, 0.08), ("U shape", [(0, 0), (0, 5), (0, 10), (5, 0), (10, 0), (10, 5), (10, 10)], 80.0, 2.0, 0.07),
+             ("irregular 25", irregular, 100.0, 2.0, 0.075)]
+    if tier() == "thorough":
+        cases += [("5x5 grid", rect(5, 5, 5.0), 100.0, 2.0, 0.075), ("3x3 grid, shallow", rect(3, 3, 6.0), 40.0, 0.5, 0.06), ("10x15 grid", rect(10, 15, 5.0), 100.0, 2.0, 0.075),
+                  ("4x4 grid deep", rect(4, 4, 7.5), 300.0, 5.0, 0.09)]
+    n = 0
+    for c, r in zip(cases, parallel_map(_fls_case, cases)):
+        if "error" in r:
+            chk.violation(f"C11 analytical anchor, {c[0]}: raised {r['error']}", {"case": c[0]})
+            continue
+        n += 1
+        tol = 1e-6 if r["n"] == 1 else 1e-4
+        if r["uhtr_err"] > tol:
+            sim = r.get("uhtr_err_similarities")
+            if sim is not None and sim <= tol and r["uhtr_err"] <= 1e-2 and r["n"] >= 20:
+                chk.violation(f"C11 analytical anchor, {c[0]}: F27 (default solver's grouping tolerance), deviation {r['uhtr_err']:.3g}", {"case": c[0], "result": r}, known_key="F27")
+            else:
+                chk.violation(f"C11 analytical anchor, {c[0]} ({r['n']} boreholes): the uniform-heat-rate curve deviates from the finite-line-source superposition by {r['uhtr_err']:.3g} "
+                              f"(tolerance {tol:g}; exact-pairing solver: {sim})", {"case": c[0], "result": r})
+        if "mift_rel" in r and r["mift_rel"] > 0.2:
+            chk.violation(f"C11 analytical anchor, {c[0]}: the default mixed-inlet-temperature curve deviates from the finite-line-source curve by {100 * r['mift_rel']:.1f} % (> 20 %)", {"case": c[0]})
+    chk.note("analytical_anchor_cases", n)
+    chk.traces += n
+
+
 def run_c11() -> int:
     chk = Check("C11")
     t = tier()
     chk.rule = ("TLC builds every pair of strictly increasing integer axes (short 1..4 points, long 2..3 points, values 0..7; thorough: 5/4/9) and joins them as combine_sts_lts does; "
                 "the real static method is replayed on every pair; the interpolation decision table, the stored-height identity, the radius correction and the cache are exercised on "
                 "real GFunction objects; real GHE objects are judged for both join branches; distinct = axis pairs")
-    chk.trusted = ["TLC 1.8.0", "the analytic finite-line-source anchor and the 20% MIFT band are NOT decided by this check (DESIGN.md section 10)"]
+    chk.trusted = ["TLC 1.8.0", "scipy.integrate.quad for the analytical finite-line-source reference (a measurement on sampled fields, not a model)"]
     ms, ml, am = (4, 3, 7) if t == "quick" else (5, 4, 9)
     consts = f"CONSTANTS\n MaxS = {ms}\n MaxL = {ml}\n AxisMax = {am}\n"
     cfg = "INIT Init\nNEXT Next\nCHECK_DEADLOCK FALSE\n" + consts + "".join(f"INVARIANT {i}\n" for i in ("AxisStrictlyIncreasingK", "LtsReproduced", "StsBeforeOnlyK", "AllStsBeforeKept", "FailsOnlyOnTouch"))
@@ -560,6 +673,7 @@ def run_c11() -> int:
             chk.violation(f"C11 real GHE {c}: {b}", {"case": c})
     chk.note("real_objects", len(cases))
     chk.note("join_branches_seen", sorted(branches))
+    fls_anchor(chk)
     if branches != {"concat", "overlap"}:
         raise MachineryError(f"vacuity: join branches seen on real objects: {branches}")
     chk.evaluations += ngf + len(cases)
@@ -600,6 +714,13 @@ def _ginterp_case(item):
                     cls = "stored" if np.max(np.abs(arr - np.array(curves[nearest[q]]))) < 1e-6 else "other"
                 elif q == "inside":
                     cls = "interp" if np.all(np.isfinite(arr)) and not warned else "other"
+                    # the VALUES of an in-range query do not depend on what was asked before (first lookup outside the range included)
+                    fresh = GFunction(b=5.0, d=2.0, r_b_values={h: 0.075 for h in order}, g_lts={h: list(curves[h]) for h in order}, log_time=list(logt), bore_locations=[(0, 0), (5, 0)])
+                    with warnings.catch_warnings():
+                        warnings.simplefilter("ignore")
+                        ref_curve = np.array(fresh.g_function_interpolation(5.0 / hq[q])[0], dtype=float)
+                    if arr.shape != ref_curve.shape or np.max(np.abs(arr - ref_curve)) > 1e-12:
+                        bad.append(f"{n} stored curves, queries {qs}: the in-range query {i + 1} returns other values than on a fresh object (max difference {float(np.max(np.abs(arr - ref_curve))):.3g})")
                 elif q == "below_tol":
                     cls = "extrap" if np.all(np.isfinite(arr)) else "other"       # counted as in range by the code: no warning, but extrapolated values
                 else:
@@ -622,9 +743,9 @@ def _ginterp_case(item):
 def ginterp(chk: Check):
     t = tier()
     mq = 2 if t == "quick" else 3
-    consts = f"CONSTANTS\n Ns <- c_Ns\n MaxQ = {mq}\n"
-    mod = "---- MODULE MC_GInterp ----\nEXTENDS GInterp\nc_Ns == 1..5\n====\n"
-    cfg = "INIT Init\nNEXT Next\nCHECK_DEADLOCK FALSE\n" + consts + "INVARIANT StoredHeightReturnsStoredCurve\nINVARIANT InRangeIndependentOfHistory\nINVARIANT OutsideDependsOnFirst\nINVARIANT Emit\n"
+    consts = f"CONSTANTS\n Ns <- c_Ns\n MaxQ = {mq}\n Fixed <- c_Fixed\n"
+    mod = "---- MODULE MC_GInterp ----\nEXTENDS GInterp\nc_Ns == 1..5\nc_Fixed == {\"F28\"}\n====\n"
+    cfg = "INIT Init\nNEXT Next\nCHECK_DEADLOCK FALSE\n" + consts + "INVARIANT StoredHeightReturnsStoredCurve\nINVARIANT InRangeIndependentOfHistory\nINVARIANT OutsideIndependentOfHistory\nINVARIANT Emit\n"
     res = run_tlc("MC_GInterp", cfg, extra_modules={"MC_GInterp.tla": mod}, workers=1, timeout=1200)
     chk.add_tlc(res)
     if res.violated:
